@@ -19,6 +19,9 @@ scratch = os.environ['PYNDL_SCRATCH']
 import pyndl  # noqa: E402
 assert os.path.abspath(pyndl.__file__).startswith(os.path.abspath(scratch)), pyndl.__file__
 
+# tell the pool that the imports are done: a task's deadline must not pay for them
+proto.write(b'{"ready": 1}\n')
+
 for line in sys.stdin.buffer:
     try:
         task = json.loads(line.decode('utf-8'))
@@ -26,4 +29,8 @@ for line in sys.stdin.buffer:
     except BaseException as e:  # noqa
         res = {'err': 'HarnessError', 'msg': '%s: %s' % (type(e).__name__, e),
                'tb': traceback.format_exc()[-1500:]}
-    proto.write((json.dumps(res, ensure_ascii=False) + '\n').encode('utf-8'))
+    try:
+        out = (json.dumps(res, ensure_ascii=False) + '\n').encode('utf-8')
+    except Exception as e:  # noqa  (e.g. a lone surrogate in a result)
+        out = (json.dumps({'err': 'HarnessError', 'msg': 'reply not encodable: %s' % e}) + '\n').encode('utf-8')
+    proto.write(out)
